@@ -93,6 +93,22 @@ Theorem C05_make_empty_cog_metas :
 Proof. exact make_metas_spec. Qed.
 Print Assumptions C05_make_empty_cog_metas.
 
+(** default block sizes of save_cog_with_dask are positive, so the layout
+    theorems apply to them *)
+Theorem C05_default_blocksize_positive :
+  forall chunks, 1 <= fst chunks -> 1 <= snd chunks ->
+    default_blocksize chunks <> [] /\ Forall blk_pos (default_blocksize chunks).
+Proof. exact default_blocksize_pos. Qed.
+Print Assumptions C05_default_blocksize_positive.
+
+(** a tile without a source block (compressed from an empty block) lies entirely
+    in the padding; a tile with a source block contains at least one data row/column *)
+Theorem C05_tiles_without_source_are_padding :
+  forall dim tile y, 0 < tile -> 1 <= dim -> 0 <= y ->
+    (y < nblocks dim tile -> y * tile < dim) /\ (nblocks dim tile <= y -> dim <= y * tile).
+Proof. exact nblocks_spec. Qed.
+Print Assumptions C05_tiles_without_source_are_padding.
+
 (** tiles cover the image: chunked * tile >= shape > (chunked - 1) * tile *)
 Theorem C05_tiles_cover_image :
   forall m, wf_meta m ->
